@@ -32,6 +32,7 @@ func runC15(c *core.Ctx) {
 	c.Rule("R7", "the owner count guarding deletion counts every owner of the partition (no clock, no other field)", 1)
 	c.Rule("R8", "partition state and state-change lock merge as separate last-writer-wins registers (shared with C03.R1)", 2)
 	c.Rule("R6", "active-partition lookup uses the active flag of the same token index; the batch lookup keeps key indexes", 3)
+	c.Rule("R9", "the successor search runs over a token list sorted where it is built, from descriptors in any order (shared with C14.R5)", 1)
 	pkg := c.Prog.Pkg("ring")
 	if pkg == nil {
 		c.Miss("R1", "pkg=ring", "not loaded")
@@ -486,7 +487,11 @@ func c15Owners(c *core.Ctx, pkg *packages.Package) {
 	}
 }
 
-func c15Lookup(c *core.Ctx, pkg *packages.Package) { c15LookupAs(c, pkg, "R6", true) }
+func c15Lookup(c *core.Ctx, pkg *packages.Package) {
+	c15LookupAs(c, pkg, "R6", true)
+	c15InactiveSince(c, pkg)
+	c14PartitionTokensSorted(c, pkg, "R9")
+}
 
 // c15LookupAs runs the lookup rules under rule id R (shared with C14, whose ranges are defined by this lookup).
 func c15LookupAs(c *core.Ctx, pkg *packages.Package, R string, batch bool) {
@@ -616,4 +621,44 @@ func c15Batch(c *core.Ctx, pkg *packages.Package) {
 	})
 	c.Check(len(stores) == 1 && okStore == 1 && len(appends) == 1 && okAppend == 1, "R6", "func=GetKeysByPartition:index", fn.Pos(),
 		fmt.Sprintf("the lookup of keys[i] is stored under i, and entry i is reported under the partition it names (stores: %v; reported: %v)", stores, appends), 2)
+}
+
+// c15InactiveSince (R3): the deletion guard asks PartitionDesc.IsInactiveSince(now − delay). "Inactive longer
+// than the delay" on second-precision timestamps is: inactive ∧ StateTimestamp < since.Unix() — a strict
+// comparison of whole seconds (a `<=`, or a comparison of time.Time values, deletes up to a second early).
+func c15InactiveSince(c *core.Ctx, pkg *packages.Package) {
+	fn := an.FindFunc(pkg, "PartitionDesc.IsInactiveSince")
+	if fn == nil {
+		c.Miss("R3", "func=PartitionDesc.IsInactiveSince", "not found")
+		return
+	}
+	c.Analysed(fn.String())
+	var rets []ast.Expr
+	for _, b := range fn.Graph().Blocks {
+		if r := an.ReturnOf(b); r != nil && len(r.Results) == 1 {
+			rets = append(rets, r.Results[0])
+		}
+	}
+	ok := len(rets) == 1
+	detail := ""
+	if ok {
+		detail = fn.Canon(rets[0])
+		inactive, strict := false, false
+		for _, cj := range conjuncts(rets[0]) {
+			switch v := fn.Canon(cj); v {
+			case "recv.IsInactive()", "(recv.GetState() == PartitionInactive)", "(recv.State == PartitionInactive)":
+				inactive = true
+			default:
+				if be, isBin := an.Unparen(cj).(*ast.BinaryExpr); isBin {
+					x, y := fn.Canon(be.X), fn.Canon(be.Y)
+					ts := func(s string) bool { return s == "recv.GetStateTimestamp()" || s == "recv.StateTimestamp" }
+					if (be.Op == token.LSS && ts(x) && y == "p0.Unix()") || (be.Op == token.GTR && ts(y) && x == "p0.Unix()") {
+						strict = true
+					}
+				}
+			}
+		}
+		ok = inactive && strict && len(conjuncts(rets[0])) == 2
+	}
+	c.Check(ok, "R3", "func=PartitionDesc.IsInactiveSince", fn.Pos(), "answers inactive ∧ StateTimestamp < since.Unix() (strict, whole seconds): "+detail, 1)
 }
